@@ -150,11 +150,23 @@ def run_check(mod, tier, seed):
     for eid, (ent, v) in sorted(knownhits.items()):
         lines.append("KNOWN-FINDING: property=%s %s" % (prop, ent["what"]))
     viol_lines = []
-    for sig, v in sorted(new.items())[:40]:
+    unconfirmed = []
+    confirm_budget = int(os.environ.get("VERIF_CONFIRM", "4"))
+    for n, (sig, v) in enumerate(sorted(new.items(), key=lambda kv: (_size(kv[1]), kv[0]))[:40]):
         path = write_replay(prop, v)
+        # replay discipline: the recorded artefact must reproduce the failure (twice) before it is reported
+        if n < confirm_budget and hasattr(mod, "replay"):
+            ok = _confirm(mod, path)
+            if ok is False:
+                unconfirmed.append((sig, path))
+                continue
         viol_lines.append("VIOLATION property=%s replay=%s" % (prop, path))
         viol_lines.append("  signature: %s" % sig)
         viol_lines.append("  detail: %s" % (str(v.get("detail"))[:600],))
+    for sig, path in unconfirmed:
+        agg["errors"].append("violation %s was found by the search but its replay %s does not reproduce it "
+                             "(non-determinism in the harness?)" % (sig, path))
+        new.pop(sig, None)
 
     wall = time.time() - t0
     ev = build_evidence(mod, agg, tier, seed, wall, len(new), sorted(knownhits))
@@ -179,6 +191,31 @@ def run_check(mod, tier, seed):
         print("EXPLORER-ERROR: vacuous exploration: %s" % vac, file=sys.stderr)
         return 2
     return 1 if new else 0
+
+
+def _confirm(mod, path):
+    """Run `./run replay <path>` twice in fresh processes; True if both report the violation,
+    False if neither does, None if the outcome is mixed or the replay could not run."""
+    import subprocess
+
+    res = []
+    for _ in range(2):
+        try:
+            p = subprocess.run([os.path.join(env.VERIF, "run"), "replay", path], capture_output=True, text=True,
+                               timeout=600, env=os.environ.copy())
+        except Exception:  # noqa: BLE001
+            return None
+        if p.returncode == 1 and "VIOLATION" in p.stdout:
+            res.append(True)
+        elif p.returncode == 0:
+            res.append(False)
+        else:
+            return None
+    if all(res):
+        return True
+    if not any(res):
+        return False
+    return None
 
 
 def _size(v):
